@@ -156,7 +156,11 @@ class Queue(mp_Queue):
                     nrelease()
                 try:
                     while True:
-                        obj = bpopleft()
+                        try:
+                            obj = bpopleft()
+                        except IndexError:
+                            # the buffer is empty: wait for more
+                            break
                         if obj is sentinel:
                             util.debug("feeder thread got sentinel -- exiting")
                             close()
@@ -175,7 +179,10 @@ class Queue(mp_Queue):
                         # Remove references early to avoid leaking memory
                         del obj, obj_
                 except IndexError:
-                    pass
+                    # The empty buffer is handled above: an IndexError raised
+                    # while pickling or sending obj is an error of this task,
+                    # to be reported like any other one.
+                    raise
             except BaseException as e:
                 if ignore_epipe and getattr(e, "errno", 0) == errno.EPIPE:
                     return
